@@ -344,9 +344,7 @@ func (m *clientHelloMsg) MakeLog() *ClientHello {
 
 	ch.SignatureAndHashes = []SignatureAndHash{}
 	for _, sigAndAlg := range m.supportedSignatureAlgorithms {
-		if sa, ok := signatureAlgorithms[SignatureScheme(sigAndAlg)]; ok {
-			ch.SignatureAndHashes = append(ch.SignatureAndHashes, SignatureAndHash(sa))
-		}
+		ch.SignatureAndHashes = append(ch.SignatureAndHashes, SignatureAndHash{Signature: uint8(sigAndAlg), Hash: uint8(sigAndAlg >> 8)})
 	}
 
 	ch.AlpnProtocols = make([]string, len(m.alpnProtocols))
